@@ -635,6 +635,10 @@ def build_fn(unit, item, imp, fnitem, spec: Fn, cover=False):
         # R1 on the signature only
         sig2, n = re.subn(r'\(\s*mut\s+self\b', '(self', sig)
         sig2 = re.sub(r'\bmut\s+(\w+\s*:)', r'\1', sig2)
+        # type renames declared for the importing unit apply to the imported signature too
+        for (rule, rx, rp) in list(unit.global_subst) + list(spec.subst):
+            if rule == "R7":
+                sig2, _n = _code_sub(sig2, rx, rp)
         text = f"#[verifier::external_body]\n{attrs}\n{spec.attrs}\n{sig2}{contract}\n{{ unimplemented!() }}\n"
         meta = dict(fn=spec.name, mode="stub", proved_in=item.proved_in)
         return text, meta
@@ -991,7 +995,12 @@ def build_unit(unit: Unit, cover=False, prelude_dir=None, skip=()):
             for imp_ in s.find_impls(item.header):
                 for ch in imp_.children():
                     if ch.kind in ("type", "const") and ch.name in item.keep_assoc:
-                        assoc += "    " + ch.text + "\n"
+                        at_ = ch.text
+                        for fn_ in item.fns:
+                            for (rule, rx, rp) in fn_.subst:
+                                if rule == "R7":
+                                    at_, _n = _code_sub(at_, rx, rp)
+                        assoc += "    " + at_ + "\n"
         body = "\n".join(fn_texts)
         if item.header is not None:
             hdr = item.header_out or item.header
